@@ -89,6 +89,25 @@ fn main() {
         "worker" => {
             props::worker_main(&args[2..]);
         }
+        // seed corpus of C01's coverage-guided campaign: `vp corpus <dir> <n>` (VERIF_SEED)
+        "corpus" => {
+            // vp corpus <dir> <n> [C01|C21|C26]
+            let n: u32 = args.get(3).and_then(|s| s.parse().ok()).unwrap_or(300);
+            let seed: u64 = std::env::var("VERIF_SEED").ok().and_then(|s| s.parse().ok()).unwrap_or(0);
+            let dir = std::path::Path::new(&args[2]);
+            let r = match args.get(4).map(|s| s.as_str()).unwrap_or("C01") {
+                "C21" => props::c21::dump_corpus(dir, n, seed),
+                "C26" => props::c26::dump_corpus(dir, n, seed),
+                _ => props::c01::dump_corpus(dir, n, seed),
+            };
+            match r {
+                Ok(w) => println!("corpus: {w} files"),
+                Err(e) => {
+                    eprintln!("corpus: {e}");
+                    std::process::exit(2);
+                }
+            }
+        }
         // debugging aid: run C01's driver in-process on a file (`vp drive <preset 0-4> <file>`), e.g. under gdb
         "drive" => {
             let p: u8 = args[2].parse().unwrap_or(1);
